@@ -19,7 +19,7 @@ RULE = ('complete table; case = (pattern, flag subset, mode, ignorecase, stream,
         'on a fresh scripted object and compared with the native form; non-trivial = the native form matched '
         'or the flags change its outcome w.r.t. no flags; invalid-object cases are all non-trivial')
 ASSUMPTIONS = ['pattern grammar and stream pool as listed in bounds']
-REQUIRED_FLAGS = {'flag_sensitive': 1, 'other_type_compiled': 1, 'ascii_text_in_bytes_mode': 1,
+REQUIRED_FLAGS = {'same_source_different_flags_cross_type': 1, 'flag_sensitive': 1, 'other_type_compiled': 1, 'ascii_text_in_bytes_mode': 1,
                   'rejected': 1, 'dot_newline': 1, 'ignorecase_effect': 1}
 
 PATTERNS = ['a', 'ab', '.', 'a.b', 'a|b', 'a*b', '[ab]+', '^b', 'b$', '(a)(b)', 'A', 'a b', 'x\\w+', 'a # c\n b']
@@ -313,6 +313,44 @@ def run_history(task, acc):
     bytes_mode = task['mode'] == 'bytes'
     nat = (lambda s: s.encode('utf-8')) if bytes_mode else (lambda s: s)
     enc = None if bytes_mode else task['mode']
+    # compiled patterns of the OTHER string type with the same source text and different flags, one after the
+    # other on one object and side by side in one list: each keeps its own flags (= the native compiled form)
+    oth = (lambda s: s) if bytes_mode else (lambda s: s.encode('utf-8'))
+    for p in ('ab', 'a.b'):
+        for stream in ('xAB\nab', 'a\nb ab', 'Ab\nB a-b'):
+            for f1, f2 in itertools.permutations((0, re.IGNORECASE, re.DOTALL, re.IGNORECASE | re.DOTALL), 2):
+                for shape in ('sequence', 'list'):
+                    CLOCK.reset()
+
+                    def mk():
+                        ch = [stream.encode('utf-8')]
+                        return ScriptSpawn(lambda size, timeout: ch.pop(0) if ch else TIMEOUT, timeout=5, encoding=enc), ch
+                    sp, chunks = mk()
+                    outs, wants = [], []
+                    if shape == 'sequence':
+                        calls = [([re.compile(oth(p), f)], [re.compile(nat(p), f)]) for f in (f1, f2)]
+                    else:
+                        calls = [([re.compile(oth(p), f1), re.compile(oth(p), f2)], [re.compile(nat(p), f1), re.compile(nat(p), f2)])]
+                    for cross, native in calls:
+                        sp.buffer = nat('')
+                        chunks[:] = [stream.encode('utf-8')]
+                        try:
+                            outs.append((sp.expect(cross + [TIMEOUT]), sp.before, sp.after))
+                        except Exception as e:
+                            outs.append(('raised', repr(e), None))
+                        ref, _ = mk()
+                        wants.append((ref.expect(native + [TIMEOUT]), ref.before, ref.after))
+                    acc.execs += 2 * len(calls)
+                    acc.transitions += len(calls)
+                    acc.nontrivial += 1
+                    acc.flags['same_source_different_flags_cross_type'] += 1
+                    acc.outcomes['history:cross-flags:%s' % ('ok' if outs == wants else 'bad')] += 1
+                    if outs != wants:
+                        acc.violation('%s:history:cross-type-same-source' % task['mode'],
+                                      'compiled %s patterns %r with flags %r and %r (%s) on stream %r: got %r, the native compiled forms give %r'
+                                      % ('str' if bytes_mode else 'bytes', p, f1, f2, shape, stream, outs, wants),
+                                      dict(task=task, what='history'))
+                        break
     entries = {'expect': lambda sp, p: sp.expect(p),
                'expect-list': lambda sp, p: sp.expect([p, TIMEOUT]),
                'compile_pattern_list': lambda sp, p: sp.expect_list(sp.compile_pattern_list(p)),
